@@ -3,7 +3,7 @@ Cases are abstract records (header fields, features with a location expression, 
 plus an exclude tuple; they are rendered to GenBank text here (render_gb) and, identically, in Coq
 (C10_Model.render_gb; length and hash of the two texts are compared on every case).  A second stream mutates
 rendered files (raw text, never in the domain)."""
-import io, json
+import io, json, re
 from framework import coq_bs, coq_bool, coq_list, coq_nat, canon_exc
 
 ID = 'C10'
@@ -405,6 +405,8 @@ def expected(case):
                     quals.setdefault('misc', []).append(q[1])
                 elif q[0] == 't':
                     quals[q[1]] = ''.join(q[2])
+                elif q[0] == 'r' and re.fullmatch(r'[+-]?[0-9]+(_[0-9]+)*', q[2]):
+                    quals[q[1]] = int(q[2].replace('_', ''))         # an unquoted integer literal is a number
                 else:
                     quals[q[1]] = q[2]
             if 'translation' in excl:
@@ -454,7 +456,7 @@ def spec(case, iv):
 FKEYS = ['source', 'gene', 'CDS', 'mRNA', 'misc_feature', "5'UTR", "3'UTR", 'mat_peptide', 'D-loop', '-10_signal', 'tRNA', 'exon',
          'regulatory', 'ncRNA', 'sig_peptide']
 WORDS = ['Hepatitis', 'virus', 'genomic', 'RNA', 'complete', 'genome', 'polyprotein', 'a=b', 'x=y=z', 'strain:', 'JFH-1', '(2a)',
-         'isolate', 'core', 'protein;', 'E1', "5'", 'note', '/slash', '=', 'join(1..2)', '12', 'putative', '[bracket]', 'a,b']
+         'isolate', 'core', 'protein;', 'E1', "5'", 'note', '/slash', '=', 'join(1..2)', '12', 'putative', '[bracket]', 'a,b', 'a""b', 'x"y']
 AA = 'ACDEFGHIKLMNPQRSTVWY'
 
 
@@ -509,8 +511,12 @@ def g_qual(rng, used):
         return ['n', k, rng.choice([0, 1, 2, 3, 11, rng.randint(0, 10 ** 5)])]
     if k == 'rpt_type' or r < 0.28:
         return ['r', k, rng.choice(['tandem', 'inverted', '(pos:1..3,aa:Ala)', '1a', 'x=y', '5_', '1__0', "a'b", 'tandem', '-x'] +
-                                   (['1_0', '+5', ' 7'] if rng.random() < 0.05 else []))]     # the last three are ints for int()
+                                   (['1_0', '+5', '-3', '007', '1_000', '-0', ' 7'] if rng.random() < 0.3 else []))]     # these are ints for int()
     txt = g_text(rng, 6)
+    if rng.random() < 0.2:        # a long value wrapped over lines as GenBank does (at blanks): the reader joins the pieces WITHOUT a separator
+        pieces = [p for p in (g_text(rng, 4).replace('"', '') for _ in range(rng.randint(2, 4)))]
+        pieces = [pieces[0]] + [p for p in pieces[1:] if not p.startswith('/')]
+        return ['t', k, pieces]
     if rng.random() < 0.15:
         txt = rng.choice([' ', '', ' lead', 'trail ', '  two  spaces  ', '/x', '7', '"q' if rng.random() < 0.1 else 'q']) + txt * rng.randint(0, 1)
     return ['t', k, [txt]]
@@ -641,8 +647,13 @@ def mutate(rng, text):
     elif k < 0.9:
         j = rng.randint(0, max(0, len(lines[i]) - 1))
         lines[i] = lines[i][:j] + lines[i][j + 1:]
-    else:
+    elif k < 0.94:
         lines[i] = lines[i].lstrip()
+    elif k < 0.97:
+        lines[i] = ' ' * rng.choice([1, 2, 5, 12, 21]) + lines[i]
+    else:
+        j = rng.randrange(len(lines))
+        lines[i], lines[j] = lines[j], lines[i]
     return '\n'.join(lines)
 
 
@@ -1086,8 +1097,33 @@ def gen_transports(rng, tier):
     return cases
 
 
+def gen_nofeatures(rng, tier):
+    """records without a FEATURES line (raw texts, outside the theorems, compared exactly with the model): the ORIGIN line and the
+    residue lines are then header lines (the residues are lost, the header gets an 'origin' entry with nested sub-fields); with the
+    feature lines kept they are header continuation / sub-field lines"""
+    cases = []
+    for i in range(300 if tier == 'thorough' else 24):
+        recs = [g_rec(rng, j) for j in range(rng.choice([1, 1, 2]))]
+        lines = render_gb(recs).split('\n')
+        keep_fts = i % 3 == 0
+        out, infts = [], False
+        for l in lines:
+            if l.startswith('FEATURES'):
+                infts = True
+                if i % 4 == 3:
+                    out.append('features             Location/Qualifiers')      # lower-case spelling is accepted by the reader
+                continue
+            if l.startswith('ORIGIN') or l == '//':
+                infts = False
+            if infts and not keep_fts:
+                continue
+            out.append(l)
+        cases.append({'excl': g_excl(rng), 'raw': '\n'.join(out)})
+    return cases
+
+
 def gen_cases(rng, tier):
-    return gen_histories(rng, tier) + gen_probe_words(rng, tier) + gen_transports(rng, tier) + _single['gen_cases'](rng, tier)
+    return gen_nofeatures(rng, tier) + gen_histories(rng, tier) + gen_probe_words(rng, tier) + gen_transports(rng, tier) + _single['gen_cases'](rng, tier)
 
 
 LEVEL_TEXT = ('Machine-checked Coq theorems about the Gallina model of sugar/_io/genbank.py (with Location/LocationTuple/Feature construction). '
